@@ -65,6 +65,22 @@ impl FormatType {
 //@|        r matches Err(RequestError::Exception(e)) ==> body.ser_exc(e),
 }
 
+// the same with the body described by a predicate instead of a Serialize object
+pub open spec fn frame_ok_p(tcp: bool, b: Seq<u8>, end: int, header: FrameHeader, fun: u8, p: spec_fn(Seq<u8>) -> bool) -> bool {
+    if tcp {
+        header.tx_id is Some && 8 <= end <= b.len()
+        && b[0] == (header.tx_id->Some_0.v() / 256) as u8 && b[1] == (header.tx_id->Some_0.v() % 256) as u8
+        && b[2] == 0 && b[3] == 0 && b[4] as int * 256 + b[5] as int == end - 6
+        && b[6] == header.destination.spec_value() && b[7] == fun && p(b.subrange(8, end))
+    } else {
+        4 <= end <= b.len() && b[0] == header.destination.spec_value() && b[1] == fun && p(b.subrange(2, end - 2))
+        && b[end - 2] as int + b[end - 1] as int * 256 == crate::shims::crc::crc16(b.subrange(0, end - 2)) as int
+    }
+}
+pub proof fn lemma_frame_ok_p<S: Serialize + ?Sized>(tcp: bool, b: Seq<u8>, end: int, header: FrameHeader, fun: u8, msg: &S, p: spec_fn(Seq<u8>) -> bool)
+    requires frame_ok(tcp, b, end, header, fun, msg), forall|o: Seq<u8>| msg.ser_ok(o) ==> p(o),
+    ensures frame_ok_p(tcp, b, end, header, fun, p)
+{}
 // a frame for this transport occupying b[0..end)
 pub open spec fn frame_ok<S: Serialize + ?Sized>(tcp: bool, b: Seq<u8>, end: int, header: FrameHeader, fun: u8, msg: &S) -> bool {
     if tcp { header.tx_id is Some && is_mbap_frame(b, end, header.tx_id->Some_0.v(), header.destination.spec_value(), fun, msg) }
